@@ -1045,12 +1045,15 @@ func (h H) syncDirSyncs(rule string) {
 		if core.Dominates(sync, r) {
 			continue
 		}
-		// not preceded by the fsync: only the windows early return, or an error return
-		if !isNilConst(retOperand(r, 0)) {
-			continue
-		}
+		// not preceded by the fsync: only the windows early return, or the
+		// return of an error that is known to be non-nil on that path (the very
+		// value that was tested: a named result that was never assigned is nil)
+		rv := fi.Sym(retOperand(r, 0)).String()
 		res := fi.MustCross(r, func(a core.Atom) bool {
-			return a.Op == "==" && strings.Contains(a.L+a.R, "GOOS") && strings.Contains(a.L+a.R, "windows")
+			if a.Op == "==" && strings.Contains(a.L+a.R, "GOOS") && strings.Contains(a.L+a.R, "windows") {
+				return true
+			}
+			return !isNilConst(retOperand(r, 0)) && a.Op == "!=" && (a.L == rv && a.R == "nil" || a.R == rv && a.L == "nil")
 		})
 		h.C.Check(rule+" success-implies-fsync", fmt.Sprintf("syncDir return#%d", k+1), res.OK, h.pos(r), "syncDir reports success without having synced the directory: "+res.Witness)
 	}
